@@ -6,6 +6,7 @@ import KcpVerif.Lemmas.C11IsoSys
 import KcpVerif.Lemmas.C11IsoTrace
 import KcpVerif.Lemmas.C11IsoAcc
 import KcpVerif.Lemmas.C11IsoDial
+import KcpVerif.Lemmas.C11IsoErase
 import KcpVerif.Lemmas.C11IsoWire
 /-!
 C11 — `isolation` (DESIGN.md 7.11, Tier-2 composition) and "no cross stall".
@@ -184,6 +185,18 @@ theorem C11_ghost_faithful (x : SessG) (hd : x.dead = false) :
     split <;> exact ⟨rfl, rfl⟩
   · unfold sessStep
     simp only [hd, Bool.false_eq_true, if_false, hp, hb, and_self]
+
+/-- **the literal instantiation** (`Lemmas/C11IsoErase.lean`): `σ := Sess`, `kcpInput s d =
+(Sess.packetInput s d now).s`, `init = Sess.new`, `closeFx s = { s with k := (Sess.update s now).k }`
+(`worldS`), application operations = the `Model/Sess` functions (`plainStep`).  Along every run of listener
+events (datagrams with any cipher / bytes / source / clock, Accept, Close, any session operation on any
+session) on which no ghost session is flagged dead, erasing the ghost fields of the ghost run gives the
+literal run: the ghost history only observes. -/
+theorem C11_ghost_erasure (evs : List GEv) (l : Listener SessG) (h : LiveRun l evs) :
+    erL (evs.foldl gstep l) = evs.foldl pstep (erL l) := erase_lrun evs l h
+
+example : (worldS 5).init 7 = Sess.new 7 ∧
+    (∀ s d, (worldS 5).kcpInput s d = (Sess.packetInput s d 5).s) := ⟨rfl, fun _ _ => rfl⟩
 
 /-! ### no cross stall -/
 
